@@ -155,8 +155,9 @@ SPECS["C10"] = dict(
                  "singular matrices are refused); the solution mentions no junk symbol; lower and upper triangle of the same matrix give identical results; column- and "
                  "row-major input; solve_inplace on a segment; a reused object reports its own status; DenseSymShiftSolve::set_shift throws invalid_argument only for "
                  "singular matrices and its perform_op solves the shifted system. Stability mechanism (the exact-arithmetic core of the c*n*eps clause): the real permutate_mat (find_lambda, find_sigma, "
-                 "pivoting_1x1/2x2, interchange_rows) is run from an ARBITRARY reduced matrix (every stored entry a symbol, n<=5, every elimination step k) and z3 proves that the pivot it selects and "
-                 "the permutation it applies are exactly those of the Bunch-Kaufman rule written independently (lambda, first arg-max r, sigma over the whole column r, the four alpha tests); thorough "
+                 "pivoting_1x1/2x2, interchange_rows) is run from an ARBITRARY reduced matrix (every stored entry a symbol, n<=5, every elimination step k) and z3 proves that the permutation it applies is the one it records and that each "
+                 "kind of pivot is only taken under the Bunch-Kaufman condition that bounds element growth (lambda, any arg-max row r, sigma over the WHOLE column r; non-strict inequalities, so tie-breaking "
+                 "and boundary conventions are not prescribed); thorough "
                  "tier: after one real elimination step every entry of the reduced matrix is within (1+1/alpha) resp. (1+2/(1-alpha)) times max|a_ij| (n=3, normalised scaling)."),
     functions=["Spectra::BKLDLT<sym::Real> and BKLDLT<std::complex<sym::Real>> (all members)", "Spectra::DenseSymShiftSolve<sym::Real, Lower|Upper>::set_shift, perform_op"],
     bounds={"quick": {"real": "n=1,2 all layouts; n=3 three layouts", "complex Hermitian": "n=1,2 all four layouts", "wrappers": "n=1,2", "pivot rule": "n=2..5, every step k, all stored entries symbolic"},
@@ -495,7 +496,7 @@ SPECS["C09"] = dict(
                  "bulge chase, accumulation) from an ARBITRARY state - symbolic symmetric tridiagonal T, rational orthogonal accumulator Q, every active block [start,end] of size 2-3 inside n <= 4 - "
                  "preserves the invariant of the whole iteration: Q' orthogonal, Q'T'Q'^T = Q T Q^T, T' again symmetric tridiagonal (bulge chased out), entries outside the block untouched (Eigen's makeGivens "
                  "replaced by its contract, which is checked on Eigen's real code); with the invariant, termination gives T Z = Z diag(d), Z'Z = I. Driver loops: with the step replaced by a stub that makes no "
-                 "progress, TridiagEigen::compute (n = 2,3) and UpperHessenbergSchur::compute (3x3 window, both exceptional shifts) reach their iteration caps (30n / 40n steps), throw std::runtime_error and "
+                 "progress, TridiagEigen::compute (n = 2,3) and UpperHessenbergSchur::compute (3x3 window, both exceptional shifts) give up after a bounded number of steps, throw std::runtime_error and "
                  "never report results; with a stub that deflates at once compute() returns the stub's values scaled back."),
     functions=["UpperHessenbergSchur<S>::compute, find_small_subdiag, split_off_two_rows, compute_shift, init_francis_qr_step, upper_hessenberg_l1_norm", "TridiagEigen<S>::compute, tridiagonal_qr_step",
                "UpperHessenbergEigen<S>::compute (zero-matrix exit), eigenvectors", "Eigen::JacobiRotation<S>::makeGivens (contract check)"],
